@@ -196,6 +196,40 @@ def pair_task(t):
     return dict(op="pairs", n=n, distinct=1, violations=viols, sample=None)
 
 
+def after_refusal_task(_t):
+    """calls the client refuses before writing (size out of range, a name that cannot be encoded), then another command on the SAME
+    session: that command must be exactly itself on the wire"""
+    viols = []
+    n = 0
+    refusals = [("havespace", ("s", 2 ** 32)), ("havespace", ("s", -1)), ("deletescript", ("caf\udce9",)), ("putscript", ("\ud800x", "keep;")),
+                ("renamescript", ("a", "\udc80")), ("havespace", ("\udce9", 5))]
+    followers = [("deletescript", ("a",)), ("putscript", ("s", "keep;")), ("havespace", ("s", 10)), ("listscripts", ()), ("setactive", ("",))]
+    for rop, rargs in refusals:
+        for reps in (1, 2):
+            for fop, fargs in followers:
+                srv = refms.RefServer(store={"a": b"keep;\r\n"}, active="a", version=True)
+                s = wire.open_session(srv)
+                for _ in range(reps):
+                    m0 = wire.mark(s)
+                    o0 = s.call(rop, *rargs)
+                    w0 = wire.written_since(s, m0)
+                    if not (o0.kind == "exc" and not w0):
+                        break
+                else:
+                    m = wire.mark(s)
+                    o = s.call(fop, *fargs)
+                    data = wire.written_since(s, m)
+                    n += 1
+                    bad = judge(fop, list(fargs), data, o)
+                    if bad is None and srv.violations:
+                        bad = ("protocol-violation", srv.violations[0])
+                    if bad:
+                        viols.append({"property": "C08", "engine": "wire", "signature": ["C08", fop, "after-refused:" + rop, bad[0]],
+                                      "what": "after %d refused %s%r, %s%r wrote %r: %s" % (reps, rop, rargs, fop, fargs, data[:80], bad[1]),
+                                      "case": {"after_refusal": True}, "witness": "%s%r x%d then %s%r" % (rop, rargs, reps, fop, fargs), "observed": repr(data[:100])})
+    return dict(op="after-refusal", n=n, distinct=1, violations=viols, sample=None)
+
+
 def write_fault_task(t):
     """the write itself fails after k octets (send timeout, connection reset) for every k: whatever the client does next, the
     octets on the wire must stay a prefix of the ONE intended command - and be exactly it if the call reports an outcome other
@@ -283,6 +317,7 @@ def run(tier, seed):
             sw.append((op, lo, min(top, lo + 500)))
     res += pool.run_tasks("checks.c08:sweep_task", sw, chunksize=2)
     res += pool.run_tasks("checks.c08:write_fault_task", WRITE_FAULT_CALLS)
+    res += pool.run_tasks("checks.c08:after_refusal_task", [0], force_pool=True)
     nb = len([v for v in values(maxlen - 1) if _encodable([v])])
     res += pool.run_tasks("checks.c08:pair_task", [(lo, lo + 16, maxlen - 1) for lo in range(0, nb, 16)])
     n = sum(r["n"] for r in res)
@@ -305,6 +340,8 @@ def replay(payload):
     if "sweep_len" in c:
         r = sweep_task((op, c["sweep_len"], c["sweep_len"] + 1))
         return r["violations"]
+    if c.get("after_refusal"):
+        return [v for v in after_refusal_task(0)["violations"] if v["signature"] == payload["signature"]]
     if c.get("write_fault"):
         r = write_fault_task((c["write_fault"][0], tuple(c["write_fault"][1])))
         return [v for v in r["violations"] if v["signature"] == payload["signature"]]
